@@ -195,13 +195,13 @@ def run(ctx):
                                "group": type(e).__name__}, case={"kind": "one", "requires_python": rp, "impl": impl, "py": [pt], "abi": [abi]})
         # compressed tag sets, structured: tags of the SAME interpreter version but different kind, in every
         # order, with ABI sets that give different ABI classes (the best pair must win whatever the order)
-        for Y in ((8, 9, 10, 12) if full else (rnd.choice([8, 9, 10, 12]),)):
+        for Y in ((8, 9, 10, 12) if (full and idx % 4 == ctx.shard % 4) else (rnd.choice([8, 9, 10, 12]),)):
             kinds = [f"py3{Y}", f"cp3{Y}", f"pp3{Y}", "py3", f"cp3{Y + 1}", f"py3{Y - 1}"]
             abisets = [["none", "abi3"], ["none", f"cp3{Y}"], ["abi3", f"cp3{Y}"], ["none"], [f"cp3{Y}", "none", "abi3"],
                        [f"pypy3{Y}_pp73", "none"], [f"cp3{Y}t", "abi3", "none"]]
             for k in (2, 3):
                 for ptags in itertools.permutations(kinds, k):
-                    if not full and rnd.random() < (0.85 if k == 2 else 0.97):
+                    if rnd.random() < ((0.85 if k == 2 else 0.97) if not full else (0.3 if k == 2 else 0.8)):
                         continue
                     for a2 in abisets:
                         try:
